@@ -149,25 +149,52 @@ def discovery_error_flag(prog: Program) -> Tuple[FuncInfo, str, Set[int]]:
     return func, name, candidates[name]
 
 
+def application_workflow(prog: Program, target: Optional[FuncInfo] = None, accept=None) -> Tuple[FuncInfo, bool]:
+    """``main``, or the private method of the application object that main hands its work to: the nearest function
+    (main first, then what it calls in its own class, two levels) that calls ``target`` directly / for which
+    ``accept(func)`` holds.  Second element: the delegation from main down to it is unconditional."""
+    from sa.util import guards_of
+
+    main = prog.method(MAIN, "main")
+    work: List[Tuple[FuncInfo, bool, int]] = [(main, True, 0)]
+    seen: Set[str] = set()
+    while work:
+        func, unconditional, depth = work.pop(0)
+        if func.qualname in seen:
+            continue
+        seen.add(func.qualname)
+        if (target is not None and any(target in s.targets for s in prog.sites_in(func))) or (accept is not None and accept(func)):
+            return func, unconditional
+        if depth < 2:
+            for site in prog.sites_in(func):
+                for callee in site.targets:
+                    if callee.cls == main.cls and callee != target:
+                        work.append((callee, unconditional and not guards_of(func.node, site.node), depth + 1))
+    return main, True
+
+
 def discovery_flag_consulted(ctx: Context, rule_id: str) -> None:
     """R19d: in ``main`` every path from the discovery call to a process exit reads the discovery
     error flag (in a condition or by passing it on)."""
     prog = ctx.prog
     rule = ctx.rule(rule_id, "discovery error flag is read on every path from discovery to a process exit", 1)
     disc, flag, const_ids = discovery_error_flag(prog)
-    main = prog.method(MAIN, "main")
-    flag_var: Optional[str] = None
-    assign_stmt: Optional[ast.stmt] = None
-    for node in walk_local(main.node):
-        if isinstance(node, ast.Assign) and isinstance(node.targets[0], ast.Tuple):
-            for elt in node.targets[0].elts:
-                if isinstance(elt, ast.Name):
-                    values = reaching_values(prog, main, elt)
-                    if any(id(v) in const_ids for v in values):
-                        flag_var = elt.id
-                        assign_stmt = node
-    if flag_var is None or assign_stmt is None:
+    def receives_flag(func: FuncInfo) -> Optional[Tuple[str, ast.stmt]]:
+        for node in walk_local(func.node):
+            if isinstance(node, ast.Assign) and isinstance(node.targets[0], ast.Tuple):
+                for elt in node.targets[0].elts:
+                    if isinstance(elt, ast.Name):
+                        values = reaching_values(prog, func, elt)
+                        if any(id(v) in const_ids for v in values):
+                            return elt.id, node
+        return None
+
+    # main, or the method of the application object that main hands the run to
+    main, _unconditional = application_workflow(prog, accept=lambda func: receives_flag(func) is not None)
+    received = receives_flag(main)
+    if received is None:
         raise AnalysisError("main: the variable receiving the discovery error flag was not found")
+    flag_var, assign_stmt = received
     cfg = CFG(main.node)
     start = cfg.stmt_node.get(id(assign_stmt))
     if start is None:
